@@ -114,7 +114,9 @@ func GenAnyString(t *rapid.T, label string) string {
 	switch rapid.IntRange(0, 6).Draw(t, label+"K") {
 	case 6:
 		// texts that look like JSON escapes themselves (a literal backslash followed by an escape letter)
-		return rapid.SampledFrom([]string{`\u0026`, `x\u003cy`, `\u003e\u003c`, `\n`, `\"`, `\\`, `\u00e9`, `a\u0026b&c`, "&amp;", "\u2028", "a&b<c>d", `\\u0026`}).Draw(t, label)
+		return rapid.SampledFrom([]string{`\u0026`, `x\u003cy`, `\u003e\u003c`, `\n`, `\"`, `\\`, `\u00e9`, `a\u0026b&c`, "&amp;", "\u2028", "a&b<c>d", `\\u0026`,
+			// texts full of brackets and braces (data, not structure)
+			strings.Repeat("[", 40), strings.Repeat("{", 33) + "x", "]]]]}}}}", strings.Repeat("[{", 70), strings.Repeat("(", 100)}).Draw(t, label)
 	case 0:
 		return rapid.SampledFrom([]string{" ", "a b", "a@b", " req=a@b ", `"`, `\`, "<>&", " ", "日本 語", "\t", "\n", "\x00", " ", "user name"}).Draw(t, label)
 	case 1:
